@@ -456,7 +456,7 @@ func TestC09(t *testing.T) {
 	}
 	debug.SetGCPercent(400)
 	mut.Full = ev.Thorough()
-	ev.Rule("(a) field matrix: every length/count/offset/dimension/type field in the field map of every seed (repository images and profile, grammar-built files incl. multi-record mluc, hostile mini-files; ICC fields of embedded profiles included) x ~40 hostile values (0,1,2,7,8,9,11,12,13,127,128,255,256,65535,65536,2^24-1,2^24,2^31-1,2^31,2^32-1, field+-1, field+-12, remaining length +-1, values making offset+size wrap 2^32), singly and in rapid-chosen pairs; (b) rapid structure-aware mutation (1-4 operators: set-field, truncate, duplicate/drop/swap chunk, splice two files, flip bits, change a type tag) of generated valid files and seeds; (a4) v2 textDescription tags built field by field (ASCII count x Unicode count incl. counts whose doubling wraps 2^32 x units present x ScriptCode count); (c) every truncation of every seed <= 8 KiB (quick, seeds > 2500 bytes: structure boundaries +-2 and every fifth position); (d) amplifier inputs (maximal-ratio deflate, many tags, many mluc records, 255 JPEG chunks). Entry chain per input: Load -> ICCProfile -> ICCProfileData -> ICCProfile again -> Description twice (or ReadProfile -> Description twice). Oracle: no escaping panic, TotalAlloc delta <= 1 MiB + B*len(input), return within 1 s + 1 s/MiB (exceeded three times in a row; the slowest conforming call observed uses about 1-5 % of it). non-trivial = distinct mutated input whose signature is still accepted by the targeted entry point")
+	ev.Rule("(a) field matrix: every length/count/offset/dimension/type field in the field map of every seed (repository images and profile, grammar-built files incl. multi-record mluc, hostile mini-files; ICC fields of embedded profiles included) x ~40 hostile values (0,1,2,7,8,9,11,12,13,127,128,255,256,65535,65536,2^24-1,2^24,2^31-1,2^31,2^32-1, field+-1, field+-12, remaining length +-1, values making offset+size wrap 2^32), singly and in rapid-chosen pairs; (b) rapid structure-aware mutation (1-4 operators: set-field, truncate, duplicate/drop/swap chunk, splice two files, flip bits, change a type tag) of generated valid files and seeds; (a4) v2 textDescription tags built field by field (ASCII count x Unicode count incl. counts whose doubling wraps 2^32 x units present x ScriptCode count); (a5) payloads that are not profiles but resemble something the library knows (the marker of another container's profile segment, a bare header, another image file, a zlib stream, runs of 0xFF / zeros), cut at every length and embedded in every container; (c) every truncation of every seed <= 8 KiB (quick, seeds > 2500 bytes: structure boundaries +-2 and every fifth position); (d) amplifier inputs (maximal-ratio deflate, many tags, many mluc records, 255 JPEG chunks). Entry chain per input: Load -> ICCProfile -> ICCProfileData -> ICCProfile again -> Description twice (or ReadProfile -> Description twice). Oracle: no escaping panic, TotalAlloc delta <= 1 MiB + B*len(input), return within 1 s + 1 s/MiB (exceeded three times in a row; the slowest conforming call observed uses about 1-5 % of it). non-trivial = distinct mutated input whose signature is still accepted by the targeted entry point")
 	ev.Set("alloc_bound", map[string]any{"A_bytes": boundA, "B_per_input_byte": boundB})
 	ev.Assume("allocation is observed as the runtime.MemStats.TotalAlloc delta around the call (process-wide; a violation is re-measured once); absence over all byte strings is not established")
 	rc := &recorder{bad: map[string]bool{}}
@@ -609,6 +609,48 @@ func TestC09(t *testing.T) {
 	}
 	ev.Class("text-edge-bytes", nText)
 	phase("text-edge-bytes")
+	// (a5) embedded payloads that are not profiles at all but look like something the library knows: the marker of
+	// another container's profile segment, a bare header, another image file, a second layer of compression - cut
+	// at every length, in every container, with the whole accessor chain run on them
+	var nConf int64
+	{
+		hdr := build.DefaultHeader()
+		good := build.SimpleProfile(build.TextDesc("inner"), 0)
+		var zz bytes.Buffer
+		zw := zlib.NewWriter(&zz)
+		zw.Write(good)
+		zw.Close()
+		payloads := [][]byte{
+			[]byte("ICC_PROFILE\x00\x01\x01abc"), []byte("ICC_PROFILE\x00\x00\x00"), []byte("ICC_PROFILE\x00\x02\x01" + string(good[:40])),
+			append(append([]byte(nil), hdr[:]...), 0, 0, 0, 1, 'd', 'e', 's', 'c', 0, 0, 0, 144, 0, 0, 0, 12),
+			[]byte("acsp"), append([]byte{0x89, 'P', 'N', 'G', 0x0D, 0x0A, 0x1A, 0x0A, 0, 0, 0, 13, 'I', 'H', 'D', 'R'}, make([]byte, 17)...),
+			[]byte("RIFF\x1a\x00\x00\x00WEBPVP8X\x0a\x00\x00\x00\x20\x00\x00\x00\x00\x00\x00\x00\x00\x00"),
+			[]byte("\xff\xd8\xff\xe2\x00\x11ICC_PROFILE\x00\x01\x01x\xff\xd9"), []byte("<?xml version=\"1.0\"?><profile/>"), []byte("Exif\x00\x00II*\x00\x08\x00\x00\x00\x00\x00"),
+			zz.Bytes(), bytes.Repeat([]byte{0xFF}, 140), make([]byte, 140),
+		}
+		for pi, pl := range payloads {
+			for n := 0; n <= len(pl); n++ {
+				if len(pl) > 60 && n > 20 && n < len(pl)-8 && n%16 != 0 && (n < 124 || n > 136) {
+					continue
+				}
+				d := pl[:n]
+				files := map[string][]byte{"icc": d}
+				files["png"], _ = build.PNG{W: 3, H: 2, Depth: 8, ColorType: 2, Pre: []build.Chunk{build.ICCPChunk("p", d, 6)}, IDAT: []byte{1}}.Bytes()
+				files["webp"], _ = build.WebP{Chunks: []build.RIFFChunk{{FourCC: "VP8X", Data: build.VP8XHeader(0x20, 2, 1)}, {FourCC: "ICCP", Data: d}, {FourCC: "VP8L", Data: build.VP8LHeader(2, 1, false)}}}.Bytes()
+				files["jpeg"], _ = build.JPEG{Segs: []build.Seg{build.ICCSeg(1, 1, d), {Marker: 0xC0, Data: build.SOF(8, 2, 3, [][3]byte{{1, 0x11, 0}})}}, SOS: []byte{1, 1, 0, 0, 63, 0}, Entropy: []byte{1}}.Bytes()
+				for _, target := range []string{"icc", "png", "webp", "jpeg", "auto"} {
+					f := files[target]
+					if target == "auto" {
+						f = files[[]string{"png", "webp", "jpeg"}[(pi+n)%3]]
+					}
+					rc.run(Case{Desc: fmt.Sprintf("embedded payload #%d cut at %d (% x...)", pi, n, d[:min(n, 12)]), Target: target, Data: f}, true)
+					nConf++
+				}
+			}
+		}
+	}
+	ev.Class("confusable-payloads", nConf)
+	phase("confusable-payloads")
 	// (a4) the whole v2 textDescription structure by construction: the position of the Unicode and ScriptCode
 	// counts depends on the ASCII count, so a field map with fixed offsets cannot keep two of them hostile at once
 	var nDesc int64
